@@ -1187,6 +1187,16 @@ class Effects:
             # has bits outside the defined ones) - unless the value is one of the literal members
             members = [self.model.try_fold(v, ci.module, ci) for v in ci.class_assigns.values()]
             k = self.model.try_fold(c.args[0], f.module, f.cls)
+            # Flag(x & MASK) with MASK made of member bits only is always a (composite) member
+            if ename & {"Flag", "enum.Flag"} and isinstance(c.args[0], ast.BinOp) \
+                    and isinstance(c.args[0].op, ast.BitAnd) and all(isinstance(m_, int) for m_ in members):
+                allbits = 0
+                for m_ in members:
+                    allbits |= m_
+                for side in (c.args[0].left, c.args[0].right):
+                    mk = self.model.try_fold(side, f.module, f.cls)
+                    if isinstance(mk, int) and mk >= 0 and mk & ~allbits == 0:
+                        return out
             if self.profile != "faults" and (k is None or k not in members):
                 self._note(f, c, {"ValueError"}, f"{ci.name}({ast.unparse(c.args[0])[:40]}): enum lookup "
                            f"of a value that need not be a member (members: {members[:6]})")
